@@ -24,16 +24,16 @@ enum {
   F_REUSE = 0, F_PAGE_FULL, F_PAGE_FREED, F_HOLES, F_HUGE, F_OVERALIGNED, F_OFFSET, F_HEAP_DEL, F_HEAP_DESTROY,
   F_REALLOC_INPLACE, F_REALLOC_MOVED, F_ZERO_ON_DIRTY, F_ZCHAIN_INPLACE, F_ZCHAIN_MOVED, F_TFREE, F_TALLOC, F_VISIT,
   F_VISIT_HOLES, F_VISIT_FULL, F_VISIT_STOP, F_EDGE_FAIL, F_PURGE_SEEN, F_LIVE8, F_MULTIHEAP, F_COLLECT, F_LARGEPAGE,
-  F_MISUSE_DETECTED, F_ARENA, F_ABANDONED_VISIT, F_EXPAND, F_ARENA_FULL_NULL, F_EXCL_PRESSURE, F_ARENA_CAP, F_SUBPROC, F_FOREIGN_FREED, F_FORGE_TARGETED, F_NFLAGS
+  F_MISUSE_DETECTED, F_ARENA, F_ABANDONED_VISIT, F_EXPAND, F_ARENA_FULL_NULL, F_EXCL_PRESSURE, F_ARENA_CAP, F_SUBPROC, F_FOREIGN_FREED, F_FORGE_TARGETED, F_DEFERRED_FREE, F_NFLAGS
 };
 static const char* FLAG_NAMES[] = {
   "addr_reuse","page_full","page_freed","page_holes","huge_block","overaligned","offset_aligned","heap_delete","heap_destroy",
   "realloc_inplace","realloc_moved","zero_on_dirty","zchain_inplace","zchain_moved","thread_free","thread_alloc","visit",
   "visit_holes","visit_full","visit_stop","edge_fail","purge_seen","live8","multi_heap","collect","large_page",
-  "misuse_detected","arena","abandoned_visit","expand","arena_full_null","unbound_alloc_while_exclusive_arena_in_use","arena_capacity_counted","other_subprocess_blocks","foreign_block_freed_by_main","forged_link_with_chosen_target" };
+  "misuse_detected","arena","abandoned_visit","expand","arena_full_null","unbound_alloc_while_exclusive_arena_in_use","arena_capacity_counted","other_subprocess_blocks","foreign_block_freed_by_main","forged_link_with_chosen_target","freed_in_deferred_free_callback" };
 // ---- counters
-enum { C_ALLOCS = 0, C_FREES, C_REALLOCS, C_BYTES_VERIFIED, C_NULLS, C_EDGE_CALLS, C_VISITED_BLOCKS, C_EXCLUDED, C_PURGE_CALLS, C_OSCALLS, C_ZERO_CHECKED, C_OWN_CHECKS, C_OS_MAP, C_OS_UNMAP, C_OS_COMMIT, C_OS_PROTECT, C_OS_ADVISE, C_FAULT_HIT, C_NULL_UNDER_FAULT, C_NCOUNTERS };
-static const char* COUNTER_NAMES[] = { "allocs","frees","reallocs","bytes_verified","null_returns","edge_calls","visited_blocks","excluded_by_guard","purge_calls","os_calls","zero_bytes_checked","ownership_checks","os_map_calls","os_unmap_calls","os_commit_calls","os_protect_calls","os_advise_calls","faults_hit","null_under_fault" };
+enum { C_ALLOCS = 0, C_FREES, C_REALLOCS, C_BYTES_VERIFIED, C_NULLS, C_EDGE_CALLS, C_VISITED_BLOCKS, C_EXCLUDED, C_PURGE_CALLS, C_OSCALLS, C_ZERO_CHECKED, C_OWN_CHECKS, C_OS_MAP, C_OS_UNMAP, C_OS_COMMIT, C_OS_PROTECT, C_OS_ADVISE, C_FAULT_HIT, C_NULL_UNDER_FAULT, C_DEFER_CALLS, C_NCOUNTERS };
+static const char* COUNTER_NAMES[] = { "allocs","frees","reallocs","bytes_verified","null_returns","edge_calls","visited_blocks","excluded_by_guard","purge_calls","os_calls","zero_bytes_checked","ownership_checks","os_map_calls","os_unmap_calls","os_commit_calls","os_protect_calls","os_advise_calls","faults_hit","null_under_fault","deferred_free_callbacks_with_work" };
 
 static inline void* launder(void* p) { __asm__ volatile("" : "+r"(p)); return p; }
 
@@ -86,6 +86,7 @@ struct Blk {
   size_t written = 0;    // prefix holding the pattern
   bool foreign = false;  // allocated by a helper thread
   bool pristine = true;   // requested size unchanged since allocation (padding canary sits right after it)
+  bool deferred = false; // handed to the program's deferred-free callback (mi_register_deferred_free): only the callback frees it
   bool stranded = false; // page was abandoned by mi_heap_delete of an incompatible heap inside a still-owned segment (known finding F5)
 };
 struct Hp { mi_heap_t* h = nullptr; bool alive = false; int kind = 0 /*0 backing,1 new,2 arena,3 tag*/; int tag = 0; int arena = -1; bool destroyable = false; bool pending_remote = false; };
@@ -136,6 +137,7 @@ struct Exec {
   uintptr_t exempt_lo = 0, exempt_hi = 0;   // block being released inside a realloc call (purge police)
   size_t last_areas = 0; bool have_last_areas = false;
   int mi_errors[8] = {0}; int last_err = 0; int err_count = 0;
+  std::vector<std::pair<int, uint8_t*>> deferred; bool defer_registered = false; bool in_deferred_cb = false; pthread_t defer_thread;   // blocks waiting for the deferred-free callback
 
   Exec(Result& rr, const std::string& md) : r(rr), mode(md) { g_exec = this; }
 
@@ -181,9 +183,11 @@ struct Exec {
     Blk& b = m.slots[s];
     size_t u = mi_usable_size(p);
     if (u < n) fail_now("usable", "op#%ld %s: mi_usable_size(%p)=%zu < requested %zu", opi, what, p, u, n);
+    { size_t u1 = mi_malloc_size(p), u2 = mi_malloc_usable_size(p); if (u1 != u || u2 != u) fail_now("usable-alias", "op#%ld %s: mi_malloc_size(%p)=%zu mi_malloc_usable_size=%zu but mi_usable_size=%zu", opi, what, p, u1, u2, u);
+      if (mi_malloc_good_size(n) != mi_good_size(n)) fail_now("usable-alias", "op#%ld mi_malloc_good_size(%zu)=%zu but mi_good_size=%zu", opi, n, mi_malloc_good_size(n), mi_good_size(n)); }
     check_disjoint(p, u, s, what);
     check_arena_rules(p, u, home, what);
-    b.p = p; b.n = n; b.u = u; b.a = a; b.o = o; b.home = home; b.zmode = zmode; b.key = m.next_key++; b.live = true; b.foreign = false; b.stranded = false; b.pristine = true;
+    b.p = p; b.n = n; b.u = u; b.a = a; b.o = o; b.home = home; b.zmode = zmode; b.key = m.next_key++; b.live = true; b.foreign = false; b.stranded = false; b.deferred = false; b.pristine = true;
     if (m.freed_addrs.count((uintptr_t)p)) flag(F_REUSE);
     if (u > 16*MiB) flag(F_HUGE); else if (u > 64*KiB) flag(F_LARGEPAGE);
     m.live[(uintptr_t)p] = s; m.nlive++;
@@ -251,5 +255,6 @@ struct Exec {
   void op_opt(const Op& op); void op_misuse(const Op& op); void op_owncheck(); void op_c18(const Op& op); void op_c07(const Op& op); void op_acap(const Op& op);
   uint8_t* call_alloc(const std::string& f, int h, size_t n, size_t c, size_t a, size_t o, bool& zeroing, size_t& req, size_t& eff_a, size_t& eff_o, bool& valid);
   void free_slot(int s, const std::string& f);
+  void op_defer(const Op& op); void run_deferred();
   void finish();
 };
